@@ -86,6 +86,10 @@ def handle (req : Sexp) : Sexp :=
     match Item.ofSexp item with
     | some (.gqlEnum _ _ _ vs ser de) => .list [.atom "ok", Sexp.mkBool (EnumSpec.tablesWf vs ser de)]
     | _ => bad "enum-wf"
+  | .list [.atom "scope-header", .str modName, structDecl] =>
+    match optStrOfSexp structDecl with
+    | some sd => .list [.atom "scope-header", Sexp.mkBool (Scope.headerClash modName sd)]
+    | none => bad "scope-header"
   | .list [.atom "scope", .list items, supplied] =>
     -- C02: the scope discipline evaluated on an (extracted) item list
     match items.mapM Item.ofSexp, strsOfSexp supplied with
